@@ -10,7 +10,7 @@
 #include <stddef.h>
 #include <stdint.h>
 
-#define RT_MAX_THREADS 16
+#define RT_MAX_THREADS 96
 
 /* access kinds as they appear in the trace (and in the Coq models) */
 enum {
